@@ -137,6 +137,7 @@ class FSession(KSession):
         try:
             fit = thunk()
         except Exception as ex:
+            self.last_exn = ex
             if onfail: onfail()
             self.fits.append(None); self.fit_slots.append(None)
             self._emit(term, pyop, '(OutExn %s)' % cexn(type(ex).__name__), [None, None])
@@ -209,7 +210,7 @@ class FSession(KSession):
                                         label=self._pylabel(label))
             err = None
         except Exception as ex:
-            fit, err = None, ex
+            fit, err = None, ex; self.last_exn = ex
         pyop = ('fit', 'CWTLS', list(x), list(y), (list(ux), list(uy), r_xy, a0_b0), dof, label)
         def mk(skip, v):
             return '(Some (mkWO %s %s %s %s %s %s %s %s))' % (cz(skip), cf(v[0]), cf(v[1]), cf(v[2]), cf(v[3]), cf(v[4]), cf(v[5]), cz(v[6]))
@@ -361,22 +362,46 @@ def gen_x(rng, n, kind):
         return xs
     if kind == 'offset':
         return [1e4 + rng.uniform(0, 1) for _ in range(n)]
+    if kind == 'centred':
+        # x centred on zero EXACTLY: S_x == 0.0 (exact symmetric offsets, exactly representable)
+        h = rng.choice([1.0, 0.5, 2.0, 0.25, 1e-8, 1e8])
+        half = [h * (i + (0.5 if n % 2 == 0 else 1.0)) for i in range(n // 2)]
+        return [-v for v in reversed(half)] + ([0.0] if n % 2 else []) + half
+    if kind == 'symmetric':
+        # symmetric about a centre c != 0 (S_x = N*c up to rounding), exact offsets
+        c = rng.choice([3.0, -7.5, 100.0, 0.125]); h = rng.choice([1.0, 0.5, 2.0])
+        half = [h * (i + (0.5 if n % 2 == 0 else 1.0)) for i in range(n // 2)]
+        return [c - v for v in reversed(half)] + ([c] if n % 2 else []) + [c + v for v in half]
+    if kind == 'scaled':
+        # huge / small scales of x (well inside the float range)
+        k = rng.choice([1e-8, 1e-5, 1e5, 1e8])
+        return [k * v for v in sorted(rng.sample(range(-20, 40), n))]
     if kind == 'far':
         # x far from zero (shift 1e5 .. 1e9): r_ab -> -+1, the quotient can round to 1 + ulp (_clip_r)
         shift = rng.choice([1.0, -1.0]) * 10.0 ** rng.uniform(5, 9)
         return [shift + rng.uniform(0, 10) for _ in range(n)]
     return [rng.uniform(-10, 10) for _ in range(n)]
 
-def gen_data(rng, n):
-    kind = rng.choice(['grid', 'ints', 'cluster', 'repeat', 'offset', 'far', 'far', 'uniform', 'uniform'])
+X_KINDS = ['grid', 'ints', 'cluster', 'repeat', 'offset', 'far', 'far', 'uniform', 'uniform', 'centred', 'centred', 'symmetric', 'scaled']
+LEGIT_KINDS = ['centred', 'centred', 'symmetric', 'scaled', 'far', 'grid', 'ints']
+
+def gen_data(rng, n, kinds=None):
+    kind = rng.choice(kinds or X_KINDS)
     x = gen_x(rng, n, kind)
     if rng.random() < 0.3: rng.shuffle(x)
     a0 = rng.choice([0.0, 1.0, -2.5, rng.uniform(-5, 5)]); b0 = rng.choice([1.0, -0.5, 2.0, rng.uniform(-3, 3), 1e-3])
     shape = rng.random()
+    if kinds is not None: shape *= 0.4               # the legitimate-degenerate slice: mostly exact shapes of y
     if shape < 0.06:
         y = [a0] * n                                  # horizontal line, exactly
     elif shape < 0.12:
         y = [a0 + b0 * v for v in x]                  # (nearly) perfect fit
+    elif shape < 0.16:
+        a1, b1 = rng.choice([1.0, -2.0, 0.5]), rng.choice([2.0, -0.5, 0.25])
+        y = [a1 + b1 * v for v in x]                  # y exactly on a line with dyadic coefficients (ssr = 0 or rounding)
+    elif shape < 0.20:
+        k = rng.choice([1e-10, 1e10])
+        y = [k * (a0 + b0 * v + rng.gauss(0, 0.1)) for v in x]     # huge / small scale of y
     else:
         s = rng.choice([0.01, 0.1, 1.0])
         y = [a0 + b0 * v + rng.gauss(0, s) for v in x]
@@ -398,9 +423,9 @@ FIT_COMBOS = ([('COLS', None, lab, None, None) for lab in (False, True)] +
 def rnd_dof(rng):
     return rng.choice([1, 3, 4.5, 7, 30.0, 1e6, math.inf, 1.0])
 
-def make_fit(s, rng, combo, n, malformed=None):
+def make_fit(s, rng, combo, n, malformed=None, kinds=None):
     cls, d, lab, r, ab = combo
-    kind, x, y = gen_data(rng, n)
+    kind, x, y = gen_data(rng, n, kinds)
     wk, w = gen_w(rng, n)
     dof = rnd_dof(rng) if d else None
     label = rng.randint(0, 9) if lab else None
@@ -450,13 +475,13 @@ def _reads_since(s, r):
         if s.slots[len(s.slots) - 1 - back] is r: return back
     raise KeyError('result not in a slot')
 
-def predictions(s, rng, fi, combo_index, malformed=False):
+def predictions(s, rng, fi, combo_index, malformed=False, npred=None):
     fit = s.fits[fi]
     cls = CLS.get(type(fit).__name__) if fit is not None else None
     if cls is None or cls == 'CWTLS': return
     a, b = fit.a_b
     sa, sb = s.fit_slots[fi]
-    npred = rng.randint(2, 4)
+    npred = rng.randint(2, 4) if npred is None else npred
     done = []                    # slots of the results returned so far by this fit object
     for j in range(npred):
         c = (combo_index + j) % 8
@@ -490,6 +515,8 @@ def predictions(s, rng, fi, combo_index, malformed=False):
         # every earlier prediction from this fit object is re-read after the later one (same dof, same u)
         for i in done:
             s.read('df', i); s.read('u', i)
+        if r is not None:
+            s.read('df', sa); s.read('u', sa); s.read('df', sb); s.read('u', sb); s.get_corr(sa, sb)
         if r is not None and r is not a:
             done.append(len(s.slots) - 1 - _reads_since(s, r))
         if r is not None and rng.random() < 0.3:
@@ -506,12 +533,22 @@ def predictions(s, rng, fi, combo_index, malformed=False):
 
 MALFORMED = ['len', 'zero_w', 'same_x', 'dof', 'neg_w', 'small_n', 'pred']
 
-def gen_program(rng, ctx_id, index):
+PRED_COMBOS = [c for c in FIT_COMBOS if c[0] != 'CWTLS']
+
+def gen_program(rng, ctx_id, index, focus=None):
+    """focus=None: the full mix.  focus='history': only classes with prediction methods, 3-5 predictions per fit object,
+    no malformed programs (history independence of what existing numbers report).  focus='legit': statistically
+    degenerate but legitimate data (exact symmetries, S_x == 0, exact lines, constant y, equal weights, scales, N = 2
+    where the class allows it), no malformed programs."""
     s = FSession(ctx_id)
-    combo = FIT_COMBOS[index % len(FIT_COMBOS)]
-    n = 3 + (index // len(FIT_COMBOS) + index) % 10          # 3..12, every N with every combination over time
-    malformed = MALFORMED[(index // 7) % len(MALFORMED)] if index % 7 == 6 else None
+    combos = PRED_COMBOS if focus == 'history' else FIT_COMBOS
+    combo = combos[index % len(combos)]
+    n = 3 + (index // len(combos) + index) % 10          # 3..12, every N with every combination over time
+    malformed = MALFORMED[(index // 7) % len(MALFORMED)] if index % 7 == 6 and focus is None else None
     if malformed == 'small_n': n = rng.choice([0, 1, 2, 2])
+    if focus == 'legit' and index % 2: n = 3 + (index // 2) % 4          # small N: 3..6 more often
+    if malformed is None and combo[0] == 'CRWLS' and combo[1] and rng.random() < (0.3 if focus == 'legit' else 0.1):
+        n = 2                                                # two observations: legitimate for RWLS with a given dof
     if rng.random() < 0.3:
         # some history before the fit: uid counters and registries are not at their initial values
         for _ in range(rng.randint(1, 3)):
@@ -519,12 +556,22 @@ def gen_program(rng, ctx_id, index):
     if combo[0] == 'CWTLS' and malformed not in (None, 'dof', 'len', 'pred'):
         malformed = 'dof'        # failures inside type_b.line_fit_wtls are outside this property's model
         n = max(n, 3)
-    f = make_fit(s, rng, combo, n, malformed if malformed not in ('pred', 'small_n') else None)
+    f = make_fit(s, rng, combo, n, malformed if malformed not in ('pred', 'small_n') else None,
+                 kinds=LEGIT_KINDS if focus == 'legit' else None)
     s.kinds['fit:%s:dof=%s:label=%s' % (combo[0], combo[1], combo[2])] += 1
     s.kinds['N=%d' % n] += 1
+    if focus: s.kinds['focus:' + focus] += 1
+    if f is None and focus == 'legit':
+        # the data of this slice are legitimate by construction (finite, distinct x, positive weights, N >= 3 or N = 2
+        # for RWLS with a given dof): a fit function that raises fails the property whatever the model says
+        # (for WTLS only the rejection of the correlation counts: the type-B minimiser is external)
+        ex = getattr(s, 'last_exn', None)
+        if combo[0] != 'CWTLS' or (isinstance(ex, ValueError) and 'correlation coefficient' in str(ex)):
+            s.side.append({'kind': 'fit-raised-on-legitimate-data', 'program': s.pyops[-2:][:1] if s.pyops[-1][0] == 'ens' else s.pyops[-1:],
+                           'exception': '%s: %s' % (type(ex).__name__, str(ex)[:120])})
     if f is not None:
         observe_fit(s, rng, 0)
-        predictions(s, rng, 0, index // len(FIT_COMBOS), malformed == 'pred')
+        predictions(s, rng, 0, index // len(combos), malformed == 'pred', npred=rng.randint(3, 5) if focus == 'history' else None)
         if rng.random() < 0.25 and combo[0] != 'CWTLS':
             # a second fit in the same session (RWLS with equal factors next to OLS on the same data, or any)
             op = s.pyops[[i for i, p in enumerate(s.pyops) if p[0] == 'fit'][0]]
@@ -595,8 +642,9 @@ def gen_clip_program(rng, ctx_id, k):
     s.close()
     return s
 
-def run_corr(rng, nprog, name='C13', per_file=None):
-    sessions = [gen_program(rng, 1 + i, i) for i in range(nprog)]
+def run_corr(rng, nprog, name='C13', per_file=None, focus=None):
+    sessions = [gen_program(rng, 1 + i, i, focus if focus in ('history', 'legit') else
+                            (None, 'legit', None, 'history', None)[i % 5] if focus == 'mix' else None) for i in range(nprog)]
     sessions += [gen_clip_program(rng, 1 + nprog + k, k) for k in range(len(CLIP_CASES))]
     sessions.append(gen_wtls_clip_program(rng, 1 + nprog + len(CLIP_CASES)))
     d = scratch('corr_' + name)
@@ -630,7 +678,7 @@ def run_corr(rng, nprog, name='C13', per_file=None):
     dist = dict(stats); dist.update(kinds)
     return {'programs': len(sessions), 'steps': sum(len(s.ops) for s in sessions), 'mismatches': mism,
             'distinct': distinct, 'distribution': dist,
-            'rule': '(+4 fixed programs on data whose correlation rounds to +-(1+ulp): the _clip_r branch of the three fits and of the WTLS wrapper) one program = optional earlier declarations, a fit (x layouts incl. far from zero, shift 1e5..1e9; the 26 combinations of class x dof x label '
+            'rule': '(+4 fixed programs on data whose correlation rounds to +-(1+ulp): the _clip_r branch of the three fits and of the WTLS wrapper) one program = optional earlier declarations, a fit (x layouts incl. far from zero, shift 1e5..1e9, exactly centred on zero (S_x == 0), symmetric, scaled 1e-8..1e8; y incl. constant, exactly on a line, scaled 1e-10/1e10; N = 2 for RWLS with a given dof; two programs in five are focused: legit = degenerate-but-legitimate data only, history = 3-5 predictions per fit object; after every prediction df,u of a and b and their correlation are read again; the 26 combinations of class x dof x label '
                     '[x r_xy x a0_b0 for WTLS] are cycled, N cycles through 3..12), reads of a and b (x, u, df, correlation, '
                     'covariance), 2-4 predictions cycling the 8 combinations of the optional labels and a plain / uncertain '
                     'stimulus, reads of each result (x, u, df, components w.r.t. a and b); after each later prediction the df and u of '
@@ -643,9 +691,115 @@ def run_corr(rng, nprog, name='C13', per_file=None):
             'samples': [{'program': s.pyops[:6]} for s in sessions[:2]]}
 
 
-def fit_correspondence(rng, tier, n=None):
-    """the fit / ensemble programs as a standard correspondence suite (also used by the C05 check: every program
-    ends up reading dofs of results whose influences are members of one growing ensemble)"""
+def fit_correspondence(rng, tier, n=None, focus=None):
+    """the fit / ensemble programs as a standard correspondence suite (used by the C13 check in full and, as slices,
+    by C05, C10 and C11).  focus: None = the C13 mix (two programs in five are 'legit' / 'history'); 'history' = several predictions from one fit object with every earlier prediction and a, b re-read after
+    each later one (C10); 'legit' = statistically degenerate but legitimate data for every fit class (C11)."""
     if n is None:
         n = 208 if tier == 'quick' else 5200
-    return run_corr(rng, n, name='fit_%d' % os.getpid())
+    return run_corr(rng, n, name='fit_%s_%d' % (focus or 'all', os.getpid()), focus=focus or 'mix')
+
+# ------------------------------------------------------------------ oracle slice (search only): legitimate data
+def legit_case(rng):
+    """statistically degenerate but legitimate data for one of the fit functions: exact symmetries (x centred on zero
+    exactly, S_x == 0), symmetric x, scales, far from zero, constant y, y exactly on a line, equal weights, N = 2 for RWLS
+    with a given dof.  Everything finite, distinct x, positive weights."""
+    cls = rng.choice(['OLS', 'WLS', 'RWLS'])
+    n = rng.choice([3, 3, 4, 5, 6, 7, 9])
+    dof = None
+    if cls == 'RWLS' and rng.random() < 0.25:
+        n = 2; dof = rng.choice([1, 3.0])
+    elif cls != 'OLS' and rng.random() < 0.3:
+        dof = rng.choice([1, 4.5, 30])
+    kind, x, y = gen_data(rng, n, LEGIT_KINDS)
+    w = None
+    if cls != 'OLS':
+        w = [rng.choice([1.0, 0.5, 2.0])] * n if rng.random() < 0.6 else [round(rng.uniform(0.2, 2.0), 2) for _ in range(n)]
+    return {'cls': cls, 'x': x, 'y': y, 'w': w, 'dof': dof, 'legit': kind}
+
+def check_legit_fit(c):
+    """None, or the case with a description of the failure: a fit that raises (or yields a non-number) on legitimate data"""
+    from GTC import type_a as ta
+    new_context(81)
+    x, y, w, dof, cls = c['x'], c['y'], c.get('w'), c.get('dof'), c['cls']
+    if len(set(x)) < len(x) or len(x) < (2 if (cls == 'RWLS' and dof is not None) else 3): return None
+    if w is not None and min(w) <= 0: return None
+    try:
+        if cls == 'OLS': fit = ta.line_fit(x, y)
+        elif cls == 'WLS': fit = ta.line_fit_wls(x, y, w, dof=dof)
+        else: fit = ta.line_fit_rwls(x, y, w, dof=dof)
+    except Exception as e:
+        return dict(c, failure='fit raised %s(%s) on legitimate data' % (type(e).__name__, str(e)[:80]))
+    a, b = fit.a_b
+    vals = [a.x, a.u, b.x, b.u, a.get_correlation(b), fit.ssr]
+    if any(math.isnan(v) or math.isinf(v) for v in vals) or not (a.u >= 0 and b.u >= 0 and abs(vals[4]) <= 1.0 and fit.ssr >= 0) \
+            or fit.N != len(x):
+        return dict(c, failure='fit on legitimate data yields a number out of range', detail=vals + [fit.N])
+    return None
+
+def legit_fit_oracle(rng, n):
+    """search n legitimate data sets; {'tried': k, 'failing': None | case}"""
+    for k in range(n):
+        c = legit_case(rng)
+        try:
+            r = check_legit_fit(c)
+        except Exception as ex:
+            r = dict(c, failure='oracle could not run the case: %r' % (ex,))
+        if r is not None:
+            return {'tried': k + 1, 'failing': r}
+    return {'tried': n, 'failing': None}
+
+# ------------------------------------------------------------------ oracle slice (search only): history independence
+def history_case(rng):
+    cls = rng.choice(['OLS', 'WLS', 'RWLS'])
+    n = rng.randint(4, 10)
+    x = sorted(round(rng.uniform(-10, 10), 3) for _ in range(n))
+    if len(set(x)) < n: x = [float(i) for i in range(n)]
+    a0, b0 = round(rng.uniform(-5, 5), 2), round(rng.choice([1, -1]) * rng.uniform(0.2, 3), 2)
+    y = [round(a0 + b0 * v + rng.gauss(0, 0.3), 4) for v in x]
+    w = None if cls == 'OLS' else [round(rng.uniform(0.2, 2.0), 2) for _ in range(n)]
+    dof = 6 if cls == 'WLS' else None
+    extra = None if cls == 'OLS' else round(rng.uniform(0.3, 2.0), 2)
+    preds = []
+    for _ in range(rng.randint(2, 4)):
+        if rng.random() < 0.5: preds.append(('y_from_x', round(rng.uniform(-10, 10), 2)))
+        else: preds.append(('x_from_y', [round(a0 + b0 * rng.uniform(-3, 3) + rng.gauss(0, 0.3), 3) for _ in range(rng.randint(1, 3))]))
+    return {'cls': cls, 'x': x, 'y': y, 'w': w, 'dof': dof, 'extra': extra, 'preds': preds, 'kind': 'fit-history'}
+
+def check_history(c):
+    """what a, b and every earlier prediction report (x, u, df, correlation of a and b) must not change when a later
+    prediction is made from the same fit object.  None, or the case with what changed."""
+    from GTC import type_a as ta
+    new_context(82)
+    cls, extra = c['cls'], c.get('extra')
+    if cls == 'OLS': fit = ta.line_fit(c['x'], c['y'])
+    elif cls == 'WLS': fit = ta.line_fit_wls(c['x'], c['y'], c['w'], dof=c.get('dof'))
+    else: fit = ta.line_fit_rwls(c['x'], c['y'], c['w'], dof=c.get('dof'))
+    a, b = fit.a_b
+    def obs(o): return (float(o.x).hex(), float(o.u).hex(), float(o.df).hex())
+    held = [('a', a), ('b', b)]
+    seen = {'a': obs(a), 'b': obs(b)}; r0 = float(a.get_correlation(b)).hex()
+    for i, (kind, arg) in enumerate(c['preds']):
+        args = [arg] + ([extra] if extra is not None else [])
+        r = getattr(fit, kind)(*args)
+        for name, o in held:
+            now = obs(o)
+            if now != seen[name]:
+                return dict(c, failure='%s reports something else after prediction %d (%s)' % (name, i, kind),
+                            detail={'before (x,u,df)': [float.fromhex(v) for v in seen[name]], 'after': [float.fromhex(v) for v in now]})
+        if float(a.get_correlation(b)).hex() != r0:
+            return dict(c, failure='correlation of a and b changed after prediction %d (%s)' % (i, kind))
+        name = 'prediction %d (%s)' % (i, kind)
+        held.append((name, r)); seen[name] = obs(r)
+    return None
+
+def history_oracle(rng, n):
+    for k in range(n):
+        c = history_case(rng)
+        try:
+            r = check_history(c)
+        except Exception as ex:
+            r = dict(c, failure='oracle could not run the case: %r' % (ex,))
+        if r is not None:
+            return {'tried': k + 1, 'failing': r}
+    return {'tried': n, 'failing': None}
